@@ -781,3 +781,36 @@ write_h!(
     #[cfg(feature = "thorough")] c19_write_array1_n0_to_n2: write_law_array, [(0, 0), (0, 1), (0, 2), (1, 0), (1, 1), (1, 2), (2, 0), (2, 1), (2, 2), (2, 3)];
     #[cfg(feature = "thorough")] c19_write_array1_n4: write_law_array, [(4, 0), (4, 1), (4, 3), (4, 4), (4, 5)];
 );
+
+// ---------------------------------------------------------------------------------------------
+// trusted collection of an iterator with an explicit length (`to_trust`) after items were taken from BOTH ends: order and
+// content of what is left are preserved and the result has exactly that many elements (added after seeded change C19-m6; the
+// length bookkeeping itself is C09's)
+// ---------------------------------------------------------------------------------------------
+
+#[kani::proof]
+#[kani::unwind(7)]
+pub fn c19_collect_trust_after_back_n4() {
+    let x: [i32; 4] = kani::any();
+    let mut it = x.iter().cloned().to_trust(4);
+    let front: bool = kani::any();
+    let back: bool = kani::any();
+    let (mut lo, mut hi) = (0usize, 4usize);
+    if front {
+        assert!(it.next() == Some(x[0]), "to_trust: next yields the first element");
+        lo = 1;
+    }
+    if back {
+        assert!(it.next_back() == Some(x[3]), "to_trust: next_back yields the last element");
+        hi = 3;
+    }
+    let o: Vec<i32> = it.collect_trusted_vec1();
+    assert!(o.len() == hi - lo, "collect_trusted_vec1 after partial consumption: as many elements as are left");
+    let mut i = 0usize;
+    while i < o.len() && lo + i < hi {
+        assert!(o[i] == x[lo + i], "collect_trusted_vec1 after partial consumption: order and content preserved");
+        i += 1;
+    }
+    kani::cover!(front && back, "one item taken from each end");
+    kani::cover!(back && !front, "only the last item taken");
+}
